@@ -35,6 +35,7 @@ func fairContinuation(s *simState, maxRounds int, exclude int) (rounds int, prob
 	}
 	save := w.opt
 	w.opt.EagerFSM, w.opt.EagerLU, w.opt.EagerConnect = true, true, true
+	w.opt.Heartbeats = true
 	defer func() { w.opt = save }()
 	seen := map[string]int{}
 	probe := 0
@@ -51,6 +52,30 @@ func fairContinuation(s *simState, maxRounds int, exclude int) (rounds int, prob
 			return rounds, fmt.Sprintf("lasso: the state of round %d repeats in round %d without reaching the goal (%s)", prev, rounds, why)
 		}
 		seen[h] = rounds
+		// heartbeats come before election timeouts (the heartbeat interval is half the election timeout): every
+		// idle stream of every leader sends one, e.g. a leader that ignores the vote requests of a node in a
+		// higher term learns that term from the reply
+		beats := 0
+		for _, e := range w.enabled(&simMenu{}, s.cnt) {
+			if e.K != "RH" || e.N == exclude {
+				continue
+			}
+			if d := w.nodes[e.N].drivers[e.F]; d == nil || !d.canHeartbeat() {
+				continue
+			}
+			if err := s.apply(e, true); err != nil {
+				return rounds, "heartbeat failed: " + err.Error()
+			}
+			beats++
+			if err := s.runFreeAll(3000); err != nil {
+				return rounds, "fair run failed: " + err.Error()
+			}
+		}
+		if beats > 0 {
+			if ok, _ := progressGoal(s, &probe); ok {
+				return rounds, ""
+			}
+		}
 		// one timeout: prefer a transfer/new-term timer of a leader, else an election timeout
 		fired := false
 		for _, n := range w.nodes {
@@ -355,7 +380,7 @@ func init() {
 		},
 		MustReach: []string{"leaders"},
 		Assume: []string{
-			"liveness is decided as step-bounded progress under ONE fair scheduler (all internal events to quiescence, then one timeout, round-robin over the nodes whose timer is armed; at most 40 rounds), started from every explored state after faults stop and down nodes restart; a violation is a repeated state (lasso) or the round bound; this is not a real-time bound and not all fair schedulers",
+			"liveness is decided as step-bounded progress under ONE fair scheduler (all internal events to quiescence, one heartbeat on every idle replication stream, then one timeout, round-robin over the nodes whose timer is armed; at most 40 rounds), started from every explored state after faults stop and down nodes restart; a violation is a repeated state (lasso) or the round bound; this is not a real-time bound and not all fair schedulers",
 			"the goal is checked only when the nodes that can run are a majority of the voters of every configuration (latest or committed) held by one of them (nodes that could not restart or removed themselves are outside; a configuration known only to the node staying away binds nobody)",
 		},
 	}
